@@ -75,6 +75,13 @@ class DatasetProxy:
     def shape(self):
         return self._ds.shape
 
+    def __getattr__(self, name):
+        # everything that is not a data request (dtype, chunks, attrs, ...) is answered by the real
+        # dataset: the proxy must not make metadata look unavailable
+        if name.startswith("_"):
+            raise AttributeError(name)
+        return getattr(self._ds, name)
+
     def __getitem__(self, item):
         if isinstance(item, slice):
             start, stop, step = item.indices(len(self._ds))
@@ -91,6 +98,11 @@ class H5FileProxy:
     def __getitem__(self, name):
         return DatasetProxy(self._f[name], name, self._log)
 
+    def __getattr__(self, name):
+        if name.startswith("_"):
+            raise AttributeError(name)
+        return getattr(self._f, name)
+
     def close(self):
         self._f.close()
 
@@ -99,6 +111,11 @@ class ParquetFileProxy:
     def __init__(self, pf, log):
         self._pf, self._log = pf, log
         self.metadata = pf.metadata
+
+    def __getattr__(self, name):
+        if name.startswith("_"):
+            raise AttributeError(name)
+        return getattr(self._pf, name)
 
     def read_row_group(self, idx, columns=None, **kw):
         self._log.append(("row_group", idx))
